@@ -499,19 +499,22 @@ def entry_from_replay(pid, r):
     repro = {"command": job["command"]}
     if "input_text" in job:
         repro["input_text"] = job["input_text"]
-    elif "input_hex" in job:
+    elif "input_hex" in job and len(job["input_hex"]) <= 1024:
         repro["input_hex"] = job["input_hex"]
     else:
-        repro["input_b64"] = job["input_b64"]
+        repro["input"] = "base64 in job.input_b64 (%d bytes)" % len(base64.b64decode(job["input_b64"]))
     if job.get("maps"):
         repro["mapfiles"] = [[n, base64.b64decode(x).decode("utf-8", "replace")] for n, x in job["maps"]]
     stderr = (r["case"].get("stderr") or "").strip().splitlines()
     shown = repro.get("input_text", "").strip()
     if len(shown) > 160:
         shown = "..." + shown[-160:]
-    e["what"] = ("%s: `%s`%s -> %s" % (r["case"]["reason"], job["command"].replace("/verif/work/", ""),
+    mapnote = ""
+    if repro.get("mapfiles"):
+        mapnote = " with mapfile `%s`" % repro["mapfiles"][0][1].strip().replace("\n", "\\n")[:160]
+    e["what"] = ("%s: `%s`%s%s -> %s" % (r["case"]["reason"], job["command"].replace("/verif/work/", ""),
                  (" on `%s`" % shown) if shown else (" on %d bytes (%s)" % (len(base64.b64decode(job["input_b64"])), json.dumps(job.get("gen")))),
-                 " | ".join(stderr[:2])[:240]))
+                 mapnote, " | ".join(stderr[:2])[:240]))
     e["repro"] = repro
     e["job"] = {k: job[k] for k in ("tool", "verb", "game", "opts", "ext", "gen", "input_b64", "maps", "shared_maps")}
     return e
